@@ -201,7 +201,10 @@ class Stmts:
 
     def ex_If(self, st: ast.If, fr: Frame) -> None:
         c = self.truthy(self.ev(st.test, fr))
-        if self.path.branch(c):
+        taken = self.path.branch(c)
+        if fr.depth == 0 and fr.func is not None and not fr.in_spec:
+            self.path.notes.append(f"{st.lineno - fr.func.node.lineno}:{'T' if taken else 'F'}")
+        if taken:
             self.ex_block(st.body, fr)
         else:
             self.ex_block(st.orelse, fr)
@@ -252,11 +255,19 @@ class Stmts:
         raise Unsupported("del")
 
     # ---------------------------------------------------------------------- loops
-    def loop_spec(self, fr: Frame) -> Optional[Loop]:
-        fr.loop_counter += 1
-        if fr.contract is None:
+    def loop_spec(self, fr: Frame, node: Any = None) -> Optional[Loop]:
+        """The contract's spec of this loop; loops are numbered statically in source order
+        (for / while / generator expressions of the function, 1-based)."""
+        if fr.contract is None or fr.func is None:
             return None
-        return fr.contract.loops.get(fr.loop_counter)
+        order = getattr(fr.func, "_loop_order", None)
+        if order is None:
+            nodes = [n for b in fr.func.node.body for n in ast.walk(b)
+                     if isinstance(n, (ast.For, ast.While, ast.GeneratorExp))]
+            nodes.sort(key=lambda n: (n.lineno, n.col_offset))
+            order = {id(n): k + 1 for k, n in enumerate(nodes)}
+            fr.func._loop_order = order  # type: ignore
+        return fr.contract.loops.get(order.get(id(node), -1))
 
     def assigned_names(self, body: List[ast.stmt]) -> Tuple[List[str], List[str]]:
         """(rebound names, names mutated through methods/subscripts) in ``body``."""
@@ -487,7 +498,7 @@ class Stmts:
 
     def ex_For(self, st: ast.For, fr: Frame) -> None:
         it = self.ev(st.iter, fr)
-        spec = self.loop_spec(fr)
+        spec = self.loop_spec(fr, st)
         view = self.iter_view(it, st, fr)
         if spec is None:
             if view[0] != "concrete":
@@ -546,6 +557,13 @@ class Stmts:
             self.step_folds(fns, i, elem, fr)
             for g in spec.use_gfolds:
                 self.gfold_instantiate(g, seq_t, i, elem, fr, False)
+            # pre(...) in body lemmas: the value at the start of the iteration
+            pres: Dict[str, V] = {}
+            for nm, ex in spec.body_ensures + spec.body_twins:
+                for n in ast.walk(self.parse_spec(ex)):
+                    if isinstance(n, ast.Call) and isinstance(n.func, ast.Name) and n.func.id == "pre":
+                        pres[ast.dump(n.args[0])] = self.eval_spec(ast.unparse(n.args[0]), fr)
+            fr.pres = pres  # type: ignore
             try:
                 try:
                     self.ex_block(st.body, fr)
@@ -627,7 +645,7 @@ class Stmts:
         raise Unsupported(f"iteration over {it!r}")
 
     def ex_While(self, st: ast.While, fr: Frame) -> None:
-        spec = self.loop_spec(fr)
+        spec = self.loop_spec(fr, st)
         if spec is None:
             # bounded unrolling only if the guard is decided concretely each time
             for _ in range(256):
